@@ -160,6 +160,21 @@ def ResS.flags? : ResS α → Option Flags
   | .limit _ f => some f
   | .panic => none
 
+/-- outcome up to the reported location and the final index: value / error message / limit error,
+each with the final flags -/
+inductive ShapeS (α : Type) where
+  | ok (a : α) (f : Flags)
+  | err (msg : Nat) (f : Flags)
+  | limit (f : Flags)
+  | panic
+deriving Repr, DecidableEq
+
+def ResS.shape : ResS α → ShapeS α
+  | .ok a _ f => .ok a f
+  | .err m _ _ f => .err m f
+  | .limit _ f => .limit f
+  | .panic => .panic
+
 /-- a parser positioned at `c` with flags `f` runs `p` -/
 def runS (isWs : τ → Bool) (p : ProgS τ α) (c : CState τ) (f : Flags) : ResS α :=
   (run isWs p ⟨c, f, fun _ => 0, []⟩).toRes
@@ -209,7 +224,8 @@ What is simplified (everything else follows the Rust text line by line):
   alphabet (no string literals) it cannot succeed; it takes one depth level, and `maybe_parse`
   restores the index unless the limit error comes out (which it propagates without restoring).
 * `parse_query` is `SELECT <word> FROM <word>` consumed token by token under its own depth guard,
-  then the `START`/`CONNECT` test of `parse_select`; nothing after the clause is consumed.
+  then the `START`/`CONNECT` test of `parse_select`; nothing after the clause is consumed (a bare
+  `BY` right after the clause, which Generic/ClickHouse read as `LIMIT BY`, is `UNSUPPORTED`).
 * error locations are not reported (message numbers only).
 -/
 namespace Real
@@ -340,7 +356,12 @@ def connectBy (fuel : Nat) (k : Nat → P) : P :=
 /-- `parse_query` on `SELECT w FROM w <clause>` -/
 def queryCB (fuel : Nat) : P :=
   .withGuard (.next fun _ => .next fun _ => .next fun _ => .next fun _ => .peek 0 fun t =>
-    if kwIs t kSTART || kwIs t kCONNECT then .next fun _ => .prev (connectBy fuel .ret) else unsupported) .ret
+    if kwIs t kSTART || kwIs t kCONNECT then
+      .next fun _ => .prev (connectBy fuel fun n =>
+        -- the tail of `parse_query` looks for ORDER BY, LIMIT, … ; on this alphabet only a bare `BY`
+        -- (ClickHouse/Generic `LIMIT … BY`, tested without a preceding LIMIT) would be consumed
+        .peek 0 fun y => if kwIs y kBY then unsupported else .ret n)
+    else unsupported) .ret
 
 end Real
 
